@@ -317,6 +317,10 @@ def maxInt : List Int → Int
   | [] => 0
   | x :: xs => xs.foldl (fun a b => if a < b then b else a) x
 
+/-- `ser.sort_values().dropna()`: the non-missing times in ascending order -/
+def sortedTimes (cells : List (Option Int)) : List Int :=
+  (cells.filterMap id).mergeSort fun a b => decide (a ≤ b)
+
 /-- `compute_col_stats(ser, stype.timestamp)`; a cell is `none` when missing **or unparseable**
     (`errors='coerce'`).  All-null → defaults; else `sort_values`, `dropna`, then
     `min/max` of the years, `iloc[-1]`, `iloc[0]`, `iloc[len // 2]`. -/
@@ -324,7 +328,7 @@ def timeStats (year : Int → Int) (cells : List (Option Int)) : TimeStats :=
   if cells.all Option.isNone then
     { yearRange := (-1, -1), newest := none, oldest := none, median := none }
   else
-    let s := (cells.filterMap id).mergeSort fun a b => decide (a ≤ b)
+    let s := sortedTimes cells
     let years := s.map year
     { yearRange := (minInt years, maxInt years),
       newest := s.getLast?, oldest := s.head?, median := s[s.length / 2]? }
